@@ -9,6 +9,7 @@ flag parser.  Enumerated: number of blocks/files, hash-map iteration orders.
 Oracle: instantiated validators = {v : allowed(v) ∧ some block needs v}, each exactly once.
 """
 import itertools
+import os
 import json
 import random
 import sys
@@ -119,7 +120,7 @@ def run_detect(task):
                 blocks=[dict(attrs=[VALIDATORS[vi][1] for vi in range(7) if mval(m, h['has'][(b, vi)])],
                              content_modified=mval(m, h['cm'][b])) for b in range(h['nblocks'])]))
 
-    for I, pk, val in explore(prog, models.M, run_path, stats=stats, max_paths=60000, time_limit=600):
+    for I, pk, val in explore(prog, models.M, run_path, stats=stats, max_paths=60000, time_limit=int(os.environ.get('VERIF_TASK_TIMEOUT', '3000'))):
         if pk == 'panic':
             out['panic_paths'] += 1
             viol(I, z3.BoolVal(True), 'panic', 'panic: %s' % val.msg[:120])
@@ -290,7 +291,7 @@ def confirm(binary, v, idx):
 
 BOUNDS = {
     'quick': dict(layouts=[(1,), (2,)], orders=1, name_max=12, validate=10, triples='cover'),
-    'thorough': dict(layouts=[(2,), (1, 1), (2, 1)], orders=3, name_max=13, validate=40, triples='all'),
+    'thorough': dict(layouts=[(2,), (1, 1), (2, 1)], orders=3, name_max=13, validate=40, triples='all', heavy_layout=(2, 1)),
 }
 
 
@@ -308,10 +309,12 @@ def main(tier):
             p = list(range(7))
             rnd.shuffle(p)
             orders.append(tuple(p))
-        if b['triples'] == 'all':
+        cover = [(0, 1, 4), (1, 2, 3), (4, 5, 6), (0, 3, 6), (2, 5, 0), (1, 5, 6), (2, 4, 3)]
+        if b['triples'] == 'all' and lay != b.get('heavy_layout'):
             triples = list(itertools.combinations(range(7), 3))
         else:
-            triples = [(0, 1, 4), (1, 2, 3), (4, 5, 6), (0, 3, 6), (2, 5, 0), (1, 5, 6), (2, 4, 3)]
+            # the three-block layout costs ~60 s per task: covering triples only
+            triples = cover
         for mode in ('d', 'e'):
             for o in orders:
                 for tr in triples:
